@@ -48,7 +48,7 @@ MUT = ["overwrite_same", "overwrite_diff", "append", "truncate", "empty", "rm", 
 
 @st.composite
 def _scn(draw):
-    scn = draw(hist.scenarios(P1))
+    scn = draw(hist.scenarios_deep(P1))
     scn["steps"].append({"op": "create", "root": "", "formats": draw(gen.formats(3)), "flags": []})
     m = hist.GenModel(scn["tree"])
     for s in scn["steps"]:
